@@ -76,6 +76,20 @@ func init() {
 					job("prune-expired-deliveries", 0, 100), job("prune-deleted-subscription-deliveries", 0, 100),
 				},
 			},
+			{
+				ID: "C01/siblings+snapshot-seek", Prop: "C01", Depth: d(tier, 6, 8), Drain: true,
+				Cfg: model.Cfg{Topics: []string{"T0"}, Subs: []model.SubCfg{
+					{Name: "S0", Topic: "T0"},
+					{Name: "S1", Topic: "T0"},
+				}},
+				Alphabet: []model.Op{
+					pub1("T0", "", 0),
+					pull("S0", 10), pull("S1", 10),
+					ack("S0", "oldest"), ack("S0", "newest"), ack("S1", "all"),
+					snap("S0", "N0"), seekS("S0", "N0"), seekS("S1", "N0"),
+					seekT("S0", "before-all"), seekT("S1", "after-0"),
+				},
+			},
 		}
 	}
 
@@ -151,6 +165,21 @@ func init() {
 					tick("lease+"),
 				},
 			},
+			{
+				ID: "C03/sibling-seek-and-snapshot", Prop: "C03", Depth: d(tier, 6, 7), Drain: true,
+				Cfg: model.Cfg{Topics: []string{"T0", "T1"}, Subs: []model.SubCfg{
+					{Name: "S0", Topic: "T0"},
+					{Name: "S1", Topic: "T0"},
+					{Name: "S2", Topic: "T1"},
+				}},
+				Alphabet: []model.Op{
+					pub1("T0", "", 0), pub1("T1", "", 0),
+					pull("S0", 10), pull("S1", 10), pull("S2", 10),
+					ack("S0", "all"), ack("S1", "all"), ack("S2", "all"),
+					seekT("S1", "before-all"), seekT("S2", "before-all"), snap("S1", "N1"), seekS("S1", "N1"),
+					tick("lease+"),
+				},
+			},
 		}
 	}
 
@@ -185,6 +214,7 @@ func init() {
 					modack("S0", "oldest", 0), modack("S0", "all", 5*time.Second), modack("S0", "oldest", 60*time.Second),
 					nack("S0", "oldest"), ack("S0", "oldest"),
 					tick("lease-"), tick("lease+"), tick("lease++"),
+					pub1("T0", "", 0),
 				},
 			})
 		}
@@ -201,7 +231,7 @@ func init() {
 		for i := 0; i < rounds; i++ {
 			sk = append(sk, pull("S0", 10), tick("lease++"))
 		}
-		dev := []model.Op{tick("lease-"), modack("S0", "oldest", 0), modack("S0", "all", 60*time.Second), nack("S0", "oldest"), pull("S0", 1), tick("lease+")}
+		dev := []model.Op{tick("lease-"), modack("S0", "oldest", 0), modack("S0", "all", 60*time.Second), nack("S0", "oldest"), pull("S0", 1), tick("lease+"), pub1("T0", "", 0)}
 		out = append(out, &hist.Scenario{
 			ID: "C04/skeleton-saturation-default-policy", Prop: "C04",
 			Cfg:      model.Cfg{Topics: []string{"T0"}, Subs: []model.SubCfg{{Name: "S0", Topic: "T0", Retention: 100 * 24 * time.Hour}}},
@@ -220,6 +250,7 @@ func init() {
 				pull("S0", 1), pull("S0", 10),
 				nack("S0", "oldest"), modack("S0", "all", 0), ack("S0", "oldest"),
 				sweep(), tick("lease+"), tick("lease-"),
+				nack("S0", "stale"), modack("S0", "stale", 0),
 			}
 			return append(base, extra...)
 		}
@@ -258,6 +289,7 @@ func init() {
 					pub1("T0", "K1", 1),
 					pull("S0", 10), pull("SD", 1), pull("SD", 10), pull("SE", 10),
 					nack("S0", "all"), nack("SD", "oldest"), ack("SD", "oldest"), ack("SE", "all"),
+					nack("S0", "stale"), nack("SD", "stale"),
 					sweep(), tick("lease+"),
 				},
 			},
